@@ -200,8 +200,7 @@ class OptimizerGeneric:
         """
         if len(self._x) > 0:
             x0 = self._x[-1]
-            for idvar, var in enumerate(self.problem.variables):
-                var.update(x0[idvar])
+            self._set_variables(x0)
             self._x.pop(-1)
 
     def _set_variables(self, x):
